@@ -17,6 +17,24 @@ NOT_APPLICABLE = {
 
 # property id -> dict(level, text, note, technique, design_ref, module)
 CLAIMED = {
+    "C14": dict(
+        level="exploration",
+        technique="deterministic simulation: generated basin graphs over local files and a simulated network (HTTP object hosts, stubbed S3, fake DCOR API), real availability-checker threads under a seeded baton-passing scheduler with network/lock/source-line yield points, weather faults, provider-identifying data, reachability reference model",
+        design_ref="DESIGN.md section 4 (C14), 3.5, 3.7",
+        text=("Directed graphs of basin references over 1..6 datasets (chains, diamonds, self-references, k-cycles; file/http/s3/dcor "
+              "edges, unmapped and mapped, feature lists, absolute/relative/dangling locations; run identifiers equal, extended, "
+              "unrelated or missing) are written to local files and simulated hosts; the root is opened through RTDC_HDF5, RTDC_HTTP, "
+              "RTDC_S3 or RTDC_DCOR and seeded histories of listing, containment, reads, close/reopen run while dclab's availability "
+              "checker threads are interleaved by the seeded scheduler and hosts refuse, lose DNS, time out, answer 403/404, heal, and "
+              "local origins are deleted. Every returned value identifies its provider: it must belong to a dataset reachable along "
+              "permitted, identifier-matching edges at the mapped event; datasets opened through a network format must never open a "
+              "local file; listing calls must not raise; reads raise KeyError only; every call returns within a step budget (deadlock, "
+              "RecursionError and non-termination are violations); in fault-free acyclic worlds a legitimately reachable feature must be readable."),
+        note=("Sampling. The reachability model encodes the statement, not the implementation's key bookkeeping. Remote basins are not "
+              "contacted at listing time by design (upstream tests assert it), so listing soundness is judged for file-basin graphs "
+              "only; data of a non-matching dataset must never be returned for any type. S3 is stubbed at the boto3 object handle. A "
+              "run exceeding its wall limit twice is reported as a termination violation."),
+    ),
     "C08": dict(
         level="exploration",
         technique="deterministic simulation: seeded histories of compress/repack/condense/tdms2rtdc over a population of generated files (writer-made and raw-h5py storage layouts), tool chains, structural input/output oracle through h5py and dclab; each tool call in a forked child",
@@ -174,7 +192,7 @@ CLAIMED = {
 
 # properties whose checks are still under construction (kept in not_applicable with that
 # reason until the check exists, so that MANIFEST.json is valid and honest at every commit)
-PENDING = ["C02", "C07", "C14"]
+PENDING = ["C02", "C07"]
 for _p in PENDING:
     if _p not in CLAIMED:
         NOT_APPLICABLE[_p] = "not claimed yet: check under construction (designed in DESIGN.md section 4; will be claimed once its machinery is committed)"
